@@ -8,6 +8,7 @@ BBMOD = 'photutils.aperture.bounding_box:BoundingBox'
 
 def register(reg):
     register_extents(reg)
+    register_circular_to_mask(reg)
     register_bbox(reg)
     register_xy_extents(reg)
     register_mask_mode(reg)
@@ -452,3 +453,52 @@ def register_edges(reg):
                  ('xmax = bbox.ixmax - 0.5 - position[0]', 'xmax = bbox.ixmax + 0.5 - position[0]'),
                  ('edges.append((xmin, xmax, ymin, ymax))', 'edges.append((ymin, ymax, xmin, xmax))')],
     ))
+
+
+def register_circular_to_mask(reg):
+    """C01 "circular-annulus weights ... equal the covered fraction": per position, the mask is
+    the kernel's grid for the outer (or only) radius minus -- for an annulus -- the kernel's grid
+    for the inner radius *evaluated on the same pixel grid* (same edges, nx, ny, method).
+    cgrid_ names pixel (j, i) of circular_overlap_grid(xmin, xmax, ymin, ymax, nx, ny, r,
+    use_exact, subpixels); what the compiled kernel computes is the business of the bounded C01
+    driver."""
+    K = 'photutils/geometry/circular_overlap.pyx::circular_overlap_grid'
+    a = 'xmin, xmax, ymin, ymax, nx, ny, r, use_exact, subpixels'
+    reg.add(Contract(
+        target=K, props=['C01'], pyx=True,
+        params={'xmin': 'real', 'xmax': 'real', 'ymin': 'real', 'ymax': 'real', 'nx': 'pos',
+                'ny': 'pos', 'r': 'real', 'use_exact': 'int', 'subpixels': 'int'},
+        ensures=[('shape', 'result.shape == (ny, nx)'),
+                 ('names-the-grid', f'forall(lambda j, i: result[j, i] == cgrid_(j, i, {a}), '
+                                    '(0, ny), (0, nx))')],
+        returns=('arr', 2, 'real'), assumed=True,
+        note='cgrid_ names the output of the compiled kernel circular_overlap_grid (assumed: a '
+             'fresh (ny, nx) float array)',
+    ))
+    M_ = 'photutils/aperture/circle.py::CircularMaskMixin'
+    e = 'edges[0], edges[1], edges[2], edges[3], bbox.shape[1], bbox.shape[0]'
+    for tag, fields, rad, inner in (('aperture', {'r': 'posreal'}, 'self.r', None),
+                                    ('annulus', {'r_in': 'posreal', 'r_out': 'posreal'},
+                                     'self.r_out', 'self.r_in')):
+        rec = 'CircularMaskMixin@' + tag
+        reg.record(rec, fields)
+        outer = f'cgrid_(j, i, {e}, radius, use_exact, subpixels)'
+        expect = outer if inner is None else \
+            f'{outer} - cgrid_(j, i, {e}, {inner}, use_exact, subpixels)'
+        reg.add(Contract(
+            target=f'{M_}.to_mask', props=['C01', 'C02', 'C16', 'C19'], kind='method',
+            tag='grid-' + tag, block=('ny', 'mask'),
+            params={'self': rec, 'bbox': ('record', 'BBoxShape', {'shape': ('tuple', 'pos', 'pos')}),
+                    'edges': ('tuple', 'real', 'real', 'real', 'real'), 'radius': 'real',
+                    'use_exact': 'int', 'subpixels': 'int'},
+            requires=[f'radius == {rad}'],
+            ensures=[('shape', 'mask.shape == bbox.shape'),
+                     ('kernel-grid-of-the-outer-radius-minus-that-of-the-inner-on-the-same-pixels',
+                      f'forall(lambda j, i: mask[j, i] == {expect}, (0, bbox.shape[0]), '
+                      '(0, bbox.shape[1]))')],
+            mutants=[('ny, nx = bbox.shape', 'nx, ny = bbox.shape')]
+            + ([("                                              edges[3], nx, ny, self.r_in,",
+                 "                                              edges[3], nx, ny, self.r_out,"),
+                ('mask -= circular_overlap_grid(edges[0], edges[1], edges[2],',
+                 'mask += circular_overlap_grid(edges[0], edges[1], edges[2],')] if inner else []),
+        ))
